@@ -61,6 +61,16 @@ pub fn field_zoo(f: &Fld) -> Vec<Tagged> {
     push((&r * &r) % p, "R^2");
     push(f.inv(&r).unwrap(), "R^-1");
     push(f.neg(&r), "-R");
+    // internal (Montgomery) residues at the two ends of the range: v*R mod p = k and p-k for small k
+    {
+        let rinv = f.inv(&r).unwrap();
+        for k in 1u64..=8 {
+            push(f.mul(&b(k), &rinv), "montgomery-extreme");
+            push(f.neg(&f.mul(&b(k), &rinv)), "montgomery-extreme");
+        }
+        push(f.mul(&((p - b(1)) >> 1), &rinv), "montgomery-extreme");
+        push(f.mul(&((p + b(1)) >> 1), &rinv), "montgomery-extreme");
+    }
     // values whose *Montgomery representation* v*R mod p has a structured limb (all-ones / zero
     // 32- and 64-bit limbs, all other limbs random-looking): carries and borrows inside the
     // word-by-word backends depend on the internal form, not on the canonical value
